@@ -181,6 +181,65 @@ PROGFUZZ = {
               "size; distinct scenarios."),
         assumptions=["thread interleavings are sampled, not enumerated", "rustc compiles the generated crate faithfully", "the reference evaluator is correct"],
     ),
+    "C06": dict(
+        quick=dict(programs=64, cases=16), thorough=dict(programs=600, cases=60),
+        level="exploration",
+        rule=("Base programs from the full grammar; per base 3 variants chosen by seed among {permuted rules, permuted declarations, "
+              "reversed head clauses, randomly permuted body items (only admissible orders: expressions after their binders), "
+              "alpha-renamed variables and relations (names that look generated without being reserved)}, plus the same program fed "
+              "the input rows in another order; every fourth base is free of interpreted functions and additionally gets two injective "
+              "constant renamings (c -> 1000c+7, and c -> \"k<c>\" with the column type changed to String). Oracle (metamorphic + "
+              "reference): every variant's result, mapped back through its renaming, equals the reference result of the base; the "
+              "engine's transforms are self-checked by evaluating the variant AST with the reference too. Non-trivial: >= 1 derived "
+              "tuple and some variant's plan (summary(): index sets, simple-join status, rule / SCC order) differs from the base's "
+              "or hash placement changes (renamed constants / input order); distinct (program text, input) pairs."),
+        assumptions=["rustc compiles the generated crate faithfully", "the reference evaluator is correct", "constant renaming only for the uninterpreted fragment, as the property states"],
+    ),
+    "C07": dict(
+        quick=dict(programs=80, cases=20), thorough=dict(programs=700, cases=60),
+        level="exploration",
+        rule=("Sugared programs: positive base plus 2-4 rules that combine disjunctions (2-3 disjuncts binding a common variable, with "
+              "conditions, negations and nested disjunctions inside), ?pattern arguments, repeated variables, expression arguments over "
+              "earlier columns of the same clause, wildcards, !r(..), 1-2 head clauses, fact rules, attached conditions. The engine's "
+              "own desugarer produces the documented core form (one rule per choice of disjuncts and per head clause; fresh variable + "
+              "if-let / equality test; agg () = not()), in two flavours (equality tests only inside a clause / also across clauses). "
+              "Oracle, three-way: compiled sugared program = compiled core program(s) = reference on the sugared AST (and the reference "
+              "on the core AST, as a self-check of the desugarer). Non-trivial: a looping stratum needed >= 2 productive rounds and "
+              ">= 1 tuple was derived; distinct (program text, input) pairs."),
+        assumptions=["rustc compiles the generated crate faithfully", "the reference evaluator interprets the sugar natively and is correct"],
+    ),
+    "C08": dict(
+        quick=dict(programs=80, cases=20), thorough=dict(programs=700, cases=60),
+        level="exploration",
+        rule=("Programs whose macros are abstracted from generated rule bodies (ident parameters for variables that enter or leave the "
+              "fragment, an expr parameter for a constant / expression argument, every other identifier of the body is macro-local), "
+              "plus a nested macro (passes its parameters on and adds a clause with local variables x, y, z), a head macro, and extra "
+              "call sites: the same macro once or twice in one rule, with arguments drawn from a pool of five variable names shared "
+              "with the macro bodies (x, y, z, w, v), so that call-site variables are regularly spelled like macro-local ones. Oracle "
+              "(real rustc, span identity matters): compiled macro program = compiled hand expansion (the engine's reference expander: "
+              "parameters substituted, body-local identifiers fresh per invocation) = reference evaluator on the expansion. "
+              "Non-trivial: >= 1 derived tuple and the input distinguishes the hygienic reading from the capturing one (the "
+              "reference also evaluates the non-hygienic expansion; the case counts only if the two results differ); distinct "
+              "(program text, input) pairs."),
+        assumptions=["rustc compiles the generated crate faithfully", "the reference expander implements the documented reading (MACROS.MD)",
+                     "every non-parameter identifier of a macro body is bound inside that body (free ones are outside the documented promise)"],
+    ),
+    "C09": dict(
+        quick=dict(programs=48, cases=12), thorough=dict(programs=400, cases=40),
+        level="exploration",
+        rule=("Base program (full grammar) as ascent!, plus a seeded choice of up to 6 packagings out of: ascent_run! / ascent_run_par! "
+              "with the inputs as captured locals (fed by `for t in local.iter()` rules or by `relation r(..) = local`), "
+              "ascent_source! modules cut at random positions (0..n items before, the included slice, the rest after) included into "
+              "ascent!, ascent_par! and ascent_run!, `relation r(..) = expr` in ascent! / ascent_par! (initialiser evaluated in "
+              "Default), an earlier decoy declaration of an initialised relation with different rows (the later declaration must "
+              "win), #![measure_rule_times] (serial; parallel together with inter_rule_parallelism), #![generate_run_timeout] with "
+              "run(). Oracle: every variant equals the reference result of the base (sets, lattice values, row multisets). The whole "
+              "batch is additionally built and run a second time with ascent's segment-codegen cargo feature. Non-trivial: a looping "
+              "stratum with >= 2 productive rounds and >= 1 derived tuple; distinct (program text, input) pairs."),
+        build_configs=[dict(), dict(VERIF_ASCENT_FEATURES="segment-codegen")],
+        assumptions=["rustc compiles the generated crate faithfully", "the reference evaluator is correct",
+                     "a generic struct signature is not exercised by this check (see DESIGN.md)"],
+    ),
 }
 
 
@@ -225,25 +284,38 @@ def progfuzz(prop, tier, seed, replay=None):
             sys.stderr.write(pr.stdout[-3000:])
             raise Inconclusive("replay run failed")
         return dict(replay=True, failed=False, detail=json.load(open(res_path)))
-    sh(["cargo", "build", "-q"], cwd=ws)
     res_path = os.path.join(out, "result.json")
-    if os.path.exists(res_path):
-        os.remove(res_path)
     results = []
-    for pc in cfg.get("proc_configs", [dict()]):
-        if os.path.exists(res_path):
-            os.remove(res_path)
-        extra = {k: str(v) for k, v in pc.items()}
-        pr = sh([exe, "--prop", prop, "--tier", tier, "--seed", str(seed),
-                 "--cases", str(tcfg["cases"]), "--out", res_path], check=False, extra_env=extra)
-        if not os.path.exists(res_path):
-            sys.stderr.write(pr.stdout[-4000:])
-            raise Inconclusive("runner exited with %d (%s)" % (pr.returncode, pc))
-        r = json.load(open(res_path))
-        if pc:
-            r["distribution"] = {k: v for k, v in r["distribution"].items()}
-            r["distribution"]["process_config:" + ",".join("%s=%s" % kv for kv in sorted(pc.items()))] = r["evaluations"]
-        results.append(r)
+    for bc in cfg.get("build_configs", [dict()]):
+        feats = bc.get("VERIF_ASCENT_FEATURES", "")
+        for b in range(plan["batches"]):
+            d = os.path.join(ws, "b%d" % b)
+            txt = open(os.path.join(d, "Cargo.toml.in")).read().replace("@REPO@", repo())
+            if feats:
+                txt = txt.replace('ascent = { path = "%s/ascent" }' % repo(),
+                                  'ascent = { path = "%s/ascent", features = [%s] }'
+                                  % (repo(), ", ".join('"%s"' % f for f in feats.split(","))))
+            cur = os.path.join(d, "Cargo.toml")
+            if not os.path.exists(cur) or open(cur).read() != txt:
+                open(cur, "w").write(txt)
+        sh(["cargo", "build", "-q"], cwd=ws)
+        for pc in cfg.get("proc_configs", [dict()]):
+            if os.path.exists(res_path):
+                os.remove(res_path)
+            extra = {k: str(v) for k, v in pc.items()}
+            pr = sh([exe, "--prop", prop, "--tier", tier, "--seed", str(seed),
+                     "--cases", str(tcfg["cases"]), "--out", res_path], check=False, extra_env=extra)
+            if not os.path.exists(res_path):
+                sys.stderr.write(pr.stdout[-4000:])
+                raise Inconclusive("runner exited with %d (%s)" % (pr.returncode, pc))
+            r = json.load(open(res_path))
+            if pc:
+                r["distribution"]["process_config:" + ",".join("%s=%s" % kv for kv in sorted(pc.items()))] = r["evaluations"]
+            if feats:
+                r["distribution"]["build_config:ascent features=" + feats] = r["evaluations"]
+                # the second build runs the same (program, input) cases: not counted again as distinct cases
+                r["nontrivial"] = 0
+            results.append(r)
     return dict(replay=False, results=results, plan=plan, wall=time.time() - t0, cfg=cfg, tcfg=tcfg)
 
 
